@@ -539,6 +539,7 @@ func replay(out *hx.Out, path string) {
 		if title == "" {
 			return
 		}
+		multiStores = strings.Contains(title, "stores ") // a case of the stores mode: one decided store per role
 		items := parseItems(lines)
 		hasCrash := false
 		var plain []*item
@@ -663,6 +664,38 @@ func main() {
 						return
 					}
 				}
+			}
+		}
+	case "stores":
+		// One decided store per role, as the node has (monitor only: the model counts the storage calls of one store).
+		// An own validator with a decided instance is removed; the k-th storage call of that block fails, for every k;
+		// then the block comes again.  Crash + resume must end where the uninterrupted run ends - in particular no
+		// decided history of the removed validator may survive a removal that was committed.
+		multiStores = true
+		tmpl := func(k int) []string {
+			l := []string{"NEW", "B 100", "E OA 1 1 1", "E OA 2 1 3", "E OA 3 1 4", "E OA 4 1 5", "P",
+				"B 200", "E VA 1 1 1312 1 1 0 4 1 2 3 4 4 17 1 18 0 19 0 20 0 k=ok,na,na,na sg=",
+				"E VA 1 2 1312 2 1 1 4 1 2 3 4 4 33 1 34 0 35 0 36 0 k=ok,na,na,na sg=", "P", "D 1", "D 2",
+				"B 300", "E VR 1 1 4 1 2 3 4"}
+			if k >= 0 {
+				l = append(l, fmt.Sprintf("K %d fail", k), "B 300", "E VR 1 1 4 1 2 3 4")
+			}
+			return append(l, "P", "B 400", "E VR 1 2 4 1 2 3 4", "P", "END")
+		}
+		base, writes, viol := silentFinal(parseItems(tmpl(-1)))
+		if len(viol) > 0 {
+			out.Case("stores base")
+			out.ViolF("uninterrupted run: %s", viol[0])
+			out.End()
+			return
+		}
+		w := 0
+		if len(writes) >= 3 {
+			w = writes[2]
+		}
+		for rep := 0; rep < 3; rep++ { // the stores are visited in map order: repeat
+			for k := 0; k < w; k++ {
+				runCrash(out, fmt.Sprintf("stores rep=%d block=300 k=%d/%d fail", rep, k, w), parseItems(tmpl(k)), base)
 			}
 		}
 	case "scripted":
